@@ -430,6 +430,41 @@ def typeOf : Expr K → Option Ty
       | _ => if t.ran = .vec v.n then some ⟨t.dom, t.ran, false⟩ else none
     | none => none
 
+/-- `is_linear` implied by the expression (documented rule): sums, compositions, scalar and
+vector multiples of linear operators are linear; `+ vector`, `+ scalar`, pointwise products
+and quotients are not claimed to be. -/
+def linOf : Expr K → Bool
+  | .leaf i => i.lin
+  | .neg a => linOf a
+  | .pow a _ => linOf a
+  | .bin o a b =>
+    match o with
+    | .add => linOf a && linOf b
+    | .sub => linOf a && linOf b
+    | .mul => linOf a && linOf b
+    | _ => false
+  | .sc o a _ =>
+    match o with
+    | .lmul => linOf a
+    | .rmul => linOf a
+    | .div => linOf a
+    | _ => false
+  | .vc o a _ =>
+    match o with
+    | .lmul => linOf a
+    | .rmul => linOf a
+    | _ => false
+
+/-- No sub-expression `f * v` with `f` a `Functional` object (the call site of finding
+C04-F1: `FunctionalRightVectorMult` drops the flag). -/
+def NoFnRVec (env : Nat → Vec K → Vec K) : Expr K → Prop
+  | .leaf _ => True
+  | .neg a => NoFnRVec env a
+  | .pow a _ => NoFnRVec env a
+  | .bin _ a b => NoFnRVec env a ∧ NoFnRVec env b
+  | .sc _ a _ => NoFnRVec env a
+  | .vc o a _ => NoFnRVec env a ∧ (o = .rmul → ∀ a', build env a = some a' → a'.isFn = false)
+
 end
 
 end OdlModel.OpAlgebra
